@@ -19,6 +19,51 @@ def _limit(gib):
     return f
 
 
+def _failing_modules(ws, out):
+    """(batch, grammar index, first error text) for every generated module a rustc error points into."""
+    import re
+    found = {}
+    blocks = re.split(r"\n(?=error)", out)
+    for blk in blocks:
+        if not blk.startswith("error"):
+            continue
+        m = re.search(r"--> (b\d+)/src/main\.rs:(\d+):", blk)
+        if not m:
+            continue
+        bi, line = m.group(1), int(m.group(2))
+        try:
+            lines = open(os.path.join(ws, bi, "src", "main.rs")).read().split("\n")
+        except OSError:
+            continue
+        idx = None
+        for k in range(min(line, len(lines)) - 1, -1, -1):
+            mm = re.match(r"pub mod g(\d+) \{", lines[k])
+            if mm:
+                idx = int(mm.group(1))
+                break
+            if lines[k].startswith("fn main"):
+                break
+        if idx is not None and (bi, idx) not in found:
+            found[(bi, idx)] = blk.strip()[:600]
+    return [(bi, idx, err) for (bi, idx), err in found.items()]
+
+
+def _remove_module(ws, bi, idx):
+    """Takes grammar `idx` out of batch `bi` (module, entry, cases); returns its cases.json record."""
+    import re
+    mp = os.path.join(ws, bi, "src", "main.rs")
+    src = open(mp).read()
+    src = re.sub(rf"^pub mod g{idx} \{{\n.*?^\}}\n", "", src, flags=re.S | re.M)
+    src = re.sub(rf"^\s*vmon::c02::Entry \{{ idx: {idx},[^\n]*\n", "", src, flags=re.M)
+    open(mp, "w").write(src)
+    cp = os.path.join(ws, bi, "cases.json")
+    cases = json.load(open(cp))
+    rec = next((g for g in cases["grammars"] if g["idx"] == idx), None)
+    cases["grammars"] = [g for g in cases["grammars"] if g["idx"] != idx]
+    json.dump(cases, open(cp, "w"))
+    return rec
+
+
 def stage(ctx):
     spec = ctx["spec"]
     features = spec.get("features", "")
@@ -49,11 +94,31 @@ def stage(ctx):
         env["CARGO_NET_OFFLINE"] = "true"
         env.pop("RUSTFLAGS", None)
         t0 = time.time()
-        b = subprocess.run(["cargo", "build", "--offline"], cwd=ws, env=env, stdout=subprocess.PIPE, stderr=subprocess.STDOUT, text=True)
+        b = subprocess.run(["cargo", "build", "--offline", "--keep-going"], cwd=ws, env=env, stdout=subprocess.PIPE, stderr=subprocess.STDOUT, text=True)
+        # A grammar that parse_and_optimize accepts but whose derive output rustc refuses: there is no generated
+        # parser to compare, which is a violation for that grammar. Find the module(s) the errors point into, report
+        # them, take them out of the batch and build again (at most 4 times).
+        not_compiling = []
+        for _attempt in range(4):
+            if b.returncode == 0:
+                break
+            bad = _failing_modules(ws, b.stdout)
+            if not bad:
+                break
+            for (bi, idx, err) in bad:
+                g = _remove_module(ws, bi, idx)
+                not_compiling.append({"property": ctx["pid"], "kind": "generated_parser_does_not_compile", "config": config,
+                                      "grammar": (g or {}).get("text"), "family": (g or {}).get("family"),
+                                      "expected": "the code pest_derive generates compiles for every grammar the front-end accepts (the VM runs it)",
+                                      "observed": {"rustc": err}})
+            b = subprocess.run(["cargo", "build", "--offline", "--keep-going"], cwd=ws, env=env, stdout=subprocess.PIPE, stderr=subprocess.STDOUT, text=True)
+        if not_compiling:
+            reports.append({"counters": {"evaluations": len(not_compiling), "generated_parsers_that_do_not_compile": len(not_compiling)},
+                            "violations": not_compiling})
         info["build_s"].append(round(time.time() - t0, 1))
-        log(f"[c02 {config} round {rnd}] emitted {r.stdout.strip()} built in {time.time()-t0:.1f}s")
+        log(f"[c02 {config} round {rnd}] emitted {r.stdout.strip()} built in {time.time()-t0:.1f}s" + (f"; {len(not_compiling)} generated parser(s) did not compile" if not_compiling else ""))
         if b.returncode != 0:
-            # the working tree's generator could not compile a grammar that parse_and_optimize accepts
+            # could not be attributed to a grammar module: a harness problem, not a verdict
             log(b.stdout[-4000:])
             dead.append({"shard": "build", "rc": "generated batch does not compile", "case": None, "stderr_tail": b.stdout[-1500:]})
             continue
